@@ -78,7 +78,8 @@ fn digest(cookie: &str, challenge: u32) -> [u8; 16] {
 }
 
 /// the accepting side of the distribution handshake (OTP 23+), as the client of this library drives it
-pub async fn peer_handshake(s: &mut TcpStream, peer_flags: u64, name: &str) -> std::io::Result<()> {
+/// `early`: bytes the peer sends right behind its ack, in the same write (a real node may start talking at once)
+pub async fn peer_handshake(s: &mut TcpStream, peer_flags: u64, name: &str, early: &[u8]) -> std::io::Result<()> {
     let _name = read_hs_frame(s).await?; // 'n' / 'N' send_name
     s.write_all(&[0, 3, b's', b'o', b'k']).await?;
     s.flush().await?;
@@ -100,6 +101,7 @@ pub async fn peer_handshake(s: &mut TcpStream, peer_flags: u64, name: &str) -> s
     let theirs = u32::from_be_bytes([reply[1], reply[2], reply[3], reply[4]]);
     let mut ack = vec![0, 17, b'a'];
     ack.extend_from_slice(&digest(COOKIE, theirs));
+    ack.extend_from_slice(early);
     s.write_all(&ack).await?;
     s.flush().await
 }
@@ -176,7 +178,7 @@ async fn do_send(conn: &mut Connection, t: &mut Toks<'_>) -> String {
     }
 }
 
-async fn run_script(cfg_flags: u64, peer_flags: u64, connect: bool, steps: Vec<String>) -> String {
+async fn run_script(cfg_flags: u64, peer_flags: u64, connect: bool, early: Vec<u8>, steps: Vec<String>) -> String {
     let host = host().to_string();
     let mut out: Vec<String> = Vec::new();
     let config = ConnectionConfig::new(format!("client@{host}"), format!("peer@{host}"), COOKIE)
@@ -194,7 +196,7 @@ async fn run_script(cfg_flags: u64, peer_flags: u64, connect: bool, steps: Vec<S
         let peer_name = format!("peer@{host}");
         peer_task = Some(tokio::spawn(async move {
             let (mut s, _) = listener.accept().await.expect("accept");
-            if peer_handshake(&mut s, peer_flags, &peer_name).await.is_err() {
+            if peer_handshake(&mut s, peer_flags, &peer_name, &early).await.is_err() {
                 return;
             }
             let (mut rd, mut wr) = s.into_split();
@@ -293,7 +295,9 @@ pub fn run_case(line: &str) -> String {
     let cfg_flags: u64 = t.num();
     let peer_flags: u64 = t.num();
     let connect = t.next() == "1";
+    // optional: E<hex> = bytes the peer sends in one write with its ack
+    let early = if t.peek_done() { Vec::new() } else { unhex(t.next().trim_start_matches('E')) };
     let steps: Vec<String> = parts.map(|s| s.to_string()).collect();
     let _ = host(); // binds the EPMD stand-in outside the runtime's block_on
-    runtime().block_on(run_script(cfg_flags, peer_flags, connect, steps))
+    runtime().block_on(run_script(cfg_flags, peer_flags, connect, early, steps))
 }
